@@ -93,6 +93,17 @@ def macro_programs(draw):
         body = []
         depth = 0
         to_declare = list(locals_)
+        counts = set()
+
+        def count_arg():
+            # a value that ends up as a rep count must stay small: a literal, or one of our own parameters
+            # (which then becomes a count parameter of this macro too)
+            own = [p for p in params if p != label_param]
+            if own and d.pct() < 40:
+                p = d.choice(own)
+                counts.add(p)
+                return ['id', p]
+            return ['n', d.int(0, 3), 'dec']
         for _ in range(d.int(1, 5)):
             r = d.pct()
             if to_declare and r < 35:
@@ -104,7 +115,7 @@ def macro_programs(draw):
                     body.append(['stmt', ['wflip', expr(), ['n', d.choice([0, 1, 3, 5, 0x81]), 'hex'], expr() if d.bool() else None]])
             elif r < 78:
                 c = d.choice(callees)
-                args = [expr() for _ in c['params']]
+                args = [count_arg() if pp in c['counts'] else expr() for pp in c['params']]
                 for a in args:
                     if a[0] == 'id' and a[1] in (set(c['params']) | set(c['locals'])):
                         collisions += 1
@@ -116,7 +127,9 @@ def macro_programs(draw):
                 if it in scope or it in c['params'] or it in c['locals']:
                     collisions += 1
                 nexpr = d.choice([['n', d.int(0, 3), 'dec'], ['n', d.int(0, 3), 'dec']] + ([['id', p] for p in params if p != label_param and p != it][:1]))
-                args = [expr((it,)) if d.pct() < 70 else ['id', it] for _ in c['params']]
+                if nexpr[0] == 'id':
+                    counts.add(nexpr[1])
+                args = [count_arg() if pp in c['counts'] else (expr((it,)) if d.pct() < 70 else ['id', it]) for pp in c['params']]
                 body.append(['rep', nexpr, it, c['full'], args])
                 depth = max(depth, c['depth'] + 1)
         for loc in to_declare:
@@ -124,12 +137,7 @@ def macro_programs(draw):
         if label_param:
             body.insert(d.int(0, len(body)), ['stmt', ['label', label_param]])
         macros.append({'full': full, 'ns': ns, 'name': name, 'params': params, 'locals': locals_, 'body': body,
-                       'label_param': label_param, 'depth': depth, 'count_param': None})
-    # rep counts passed as params must receive small literals: remember which params are counts
-    for m in macros:
-        for it in m['body']:
-            if it[0] == 'rep' and it[1][0] == 'id':
-                m.setdefault('counts', set()).add(it[1][1])
+                       'label_param': label_param, 'depth': depth, 'counts': counts})
     # ---- top level
     top = []
     fresh_u = [0]
@@ -138,7 +146,7 @@ def macro_programs(draw):
         if p == m['label_param']:
             fresh_u[0] += 1
             return ['id', 'u%d' % fresh_u[0]]
-        if p in m.get('counts', ()):
+        if p in m['counts']:
             return ['n', d.int(0, 3), 'dec']
         r = d.pct()
         if extra and r < 30:
